@@ -174,6 +174,16 @@ class Corr:
 
 
 # ------------------------------------------------------------------ correspondence (tier B)
+# the inputs of the correspondence case that is currently running (set by each corr_* function before the first call of the
+# real code): an exception of the code under test that escapes a case is reported as a violation carrying them
+_CASE = {}
+
+
+def _set_case(**kw):
+    _CASE.clear()
+    _CASE.update(kw)
+
+
 def corr_hurdle_iz(rng, k, corr, res):
     from ibicus.utils import _math_utils as M
 
@@ -188,6 +198,9 @@ def corr_hurdle_iz(rng, k, corr, res):
     rand = rng.random() < 0.6
     fit_kwds = rng.choice([{"floc": 0, "fscale": None}, {"floc": 0, "fscale": None}, None, {"floc": 0.5}, {"floc": 0}])
     dbl = make_double(loc, scale)
+    _set_case(models="gen_PrecipitationHurdleModel / gen_PrecipitationIgnoreZeroValuesModel with the rational rv_continuous double (fit -> (loc, scale))",
+              data=data.tolist(), dtype=dt.__name__, x=xs.tolist(), family_loc=loc, family_scale=scale, cdf_randomization=rand, fit_kwds=str(fit_kwds),
+              wet_values=int((data != 0).sum()), calls="fit(data); cdf(x, *fit); ppf(cdf values + [p0, 0, 1 - 2^-20, p0/2, (1 + p0)/2], *fit)")
     tag = f"case {k} hurdle rand={rand} loc={loc} scale={scale}"
     model = M.gen_PrecipitationHurdleModel(distribution=dbl, fit_kwds=fit_kwds, cdf_randomization=rand)
 
@@ -264,6 +277,8 @@ def corr_censored(rng, k, corr, res):
     model = M.gen_PrecipitationGammaLeftCensoredModel(censoring_threshold=thr, censor_in_ppf=censor)
     np.random.seed(C.seed() * 1000 + 500 + k)
     inject = np.array(near + [rng.randint(0, 640) / 64 for _ in range(5)] + [thr * rng.random() for _ in range(3)])
+    _set_case(models="gen_PrecipitationGammaLeftCensoredModel (Nelder-Mead fit replaced by fixed parameters)", data=data.tolist(), x=xs.tolist(), censoring_threshold=thr,
+              censor_in_ppf=censor, fit=list(fake), calls="fit(data); cdf(x, *fit); ppf(cdf(x), *fit)")
     with Patched(fake_fit=fake) as P:
         fit = quiet(model.fit, data)
         cdf = np.asarray(quiet(model.cdf, xs, *fit), dtype=float)
@@ -299,6 +314,7 @@ def corr_factory(rng, k, corr, res):
     dist = rng.choice([scipy.stats.gamma, scipy.stats.gamma, scipy.stats.weibull_min, scipy.stats.gengamma])
     thr = rng.choice([0.1, 0.05, 1.0, 0.0, -0.5, 2.5])
     rand = rng.random() < 0.5
+    _set_case(call=f"map_standard_precipitation_method({t!r}, scipy.stats.{dist.name}, {thr}, {rand})")
     try:
         m = quiet(V.map_standard_precipitation_method, t, dist, thr, rand)
         if isinstance(m, M.gen_PrecipitationGammaLeftCensoredModel):
@@ -753,7 +769,162 @@ def oracle_fit_kwds(nrng, problems, stats, k):
             stats["fit_kwds_checks"] += 1
 
 
+def gen_small_sample(nrng):
+    """a short / mostly dry sample: 1..9 wet values (sometimes up to 30) among 10..400 values, in mm/day or flux units;
+    the wet values are distinct gamma draws, all tied (one coarsely reported amount), or lie on a coarse reporting grid
+    (few distinct amounts); sometimes with drizzle: strictly positive values below the censoring threshold"""
+    n = int(nrng.integers(10, 61)) if nrng.uniform() < 0.6 else int(nrng.integers(61, 400))
+    unit = float(nrng.choice([1.0, 1.0, 1.0, 4e-5, 1e-7]))
+    shape, scale = float(nrng.choice([0.4, 0.7, 1.0, 2.0, 5.0])), float(nrng.choice([0.5, 2.0, 10.0, 40.0]))
+    mode = str(nrng.choice(["distinct", "tied", "coarse"]))
+    n_wet = int(nrng.integers(1, 10)) if nrng.uniform() < 0.8 else int(nrng.integers(10, 31))
+    n_wet = min(n_wet, n - 2)
+    thr = float(nrng.choice([0.1, 0.05, 0.5, 1.0]))
+    if mode == "distinct":
+        wet = nrng.gamma(shape, scale, size=n_wet)
+    elif mode == "tied":
+        wet = np.full(n_wet, float(np.ceil(nrng.gamma(shape, scale) * 4) / 4))
+    else:
+        wet = np.ceil(nrng.gamma(shape, scale, size=n_wet) / (scale / 2)) * (scale / 2)
+    wet = np.maximum(wet, 2.0 ** -10)
+    n_drizzle = int(nrng.integers(0, 4)) if nrng.uniform() < 0.3 else 0
+    n_drizzle = min(n_drizzle, n - n_wet - 1)
+    drizzle = thr * nrng.choice([0.25, 0.4, 0.5], size=n_drizzle)
+    data = np.concatenate([wet, drizzle, np.zeros(n - n_wet - n_drizzle)]) * unit
+    nrng.shuffle(data)
+    return data, thr * unit, mode, unit
+
+
+def _scipy_fit_raises_same(ex, rainy, fit_kwds):
+    """is it scipy's own gamma MLE that is undefined on these rainy days (a single value, all values identical)? — then the
+    same call made directly raises the same exception"""
+    try:
+        quiet(scipy.stats.gamma.fit, rainy, **(fit_kwds or {}))
+        return False
+    except Exception as ex2:  # noqa: BLE001
+        return type(ex2) is type(ex) and str(ex2) == str(ex)
+
+
+def oracle_small_fits(nrng, problems, stats, k):
+    """Quantifier covered: "for ALL zero-inflated positive samples with ANY dry fraction in (0,1) … all three model types and
+    their options", on the side the other generators leave out: the REAL fits (scipy's gamma MLE, the censored model's own
+    Nelder-Mead likelihood fit — in every case, not one in 25) on samples with few wet values (1..9, a short or mostly dry
+    window), with wet values that are all tied or lie on a coarse reporting grid (zero / tiny variance), with drizzle below the
+    censoring threshold, in mm/day and flux units.  Judged with the parameters the model's own `fit` returns: p0 == #zeros/n,
+    cdf in [0,1] (-inf for ignored zeros), wet cdf >= p0, non-decreasing over wet values, dry -> exactly 0, wet round trip.
+    Guards (DESIGN §4 C17): the censored model needs at least one value above its threshold (with none the likelihood fit
+    degenerates); where scipy's own `gamma.fit` raises on the rainy days (a single wet value, all wet values identical) the
+    hurdle / ignore-zeros fit raising the same exception is accepted and counted; any other exception is a violation."""
+    from ibicus.utils import _math_utils as M
+
+    data, thr, mode, unit = gen_small_sample(nrng)
+    n = data.size
+    nz = int((data == 0).sum())
+    rainy = data[data != 0]
+    info = {"data": data.tolist(), "n": n, "n_dry": nz, "n_above_threshold": int((data > thr).sum()), "wet_values": mode, "threshold": thr, "unit": unit,
+            "numpy_seed_of_case": k, "generator": "small_fits"}
+    g = scipy.stats.gamma
+    stats["small_fit_cases"] += 1
+
+    def rt_bad(x, back, F):
+        m = (F >= 1e-4) & (F <= 1 - 1e-4)  # the float guard of the round-trip oracle (see assumptions)
+        stats["small_fit_roundtrip_values"] += int(m.sum())
+        b = m & ~(np.abs(back - x) <= 1e-8 * np.abs(x))
+        return (float(x[b][0]), float(back[b][0])) if b.any() else None
+
+    for kind, model in _models(M, thr):
+        sig = {"model": kind, "sample": "few / tied wet values"}
+
+        def bad(desc, law, **extra):
+            problems.append((f"{kind} ({n - nz} non-zero values of {n}, {info['n_above_threshold']} above the threshold, {mode}): " + desc, {**info, **extra}, {**sig, "law": law}))
+
+        cens = kind.startswith("censored")
+        if cens and not np.any(data > thr * (1 + 1e-9)):
+            stats["small_fit_censored_nothing_above_threshold_skipped"] += 1
+            continue
+        np.random.seed(k)
+        try:
+            fit = quiet(model.fit, data)
+            gf = fit[1] if kind.startswith("hurdle") else fit
+            prm = [float(v) for v in gf]
+            if kind.startswith("hurdle"):
+                p0 = float(fit[0])
+                if abs(p0 - nz / n) > 1e-15:
+                    bad(f"fitted p0 = {p0!r} but the observed fraction of zeros is {nz}/{n} = {nz / n!r}", "p0", fitted=[p0] + prm)
+                d32 = data.astype(np.float32)  # the flux units used here stay normal, non-zero float32 numbers
+                try:
+                    p0_32 = float(quiet(model.fit, d32)[0])
+                except Exception as ex:  # noqa: BLE001
+                    if not _scipy_fit_raises_same(ex, d32[d32 != 0], model.fit_kwds):
+                        raise
+                    stats["small_fit_scipy_mle_undefined_accepted"] += 1
+                    p0_32 = nz / n
+                if abs(p0_32 - nz / n) > 1e-15:
+                    bad(f"fitted p0 = {p0_32!r} on the float32 copy but the observed fraction of zeros is {nz}/{n}", "p0", input_dtype="float32")
+            if not cens and not (all(np.isfinite(prm)) and prm[0] > 0 and prm[2] > 0):
+                stats["small_fit_scipy_mle_degenerate_skipped"] += 1  # scipy's MLE, outside the models
+                continue
+            cdf = np.asarray(quiet(model.cdf, data, *fit), dtype=float)
+            back = np.asarray(quiet(model.ppf, cdf, *fit), dtype=float)
+            dry = data == 0
+            wetm = (data > thr * (1 + 1e-9)) if cens else (data > 0)
+            judged = ~dry if kind == "ignore_zeros" else np.ones(n, dtype=bool)
+            if not np.all((cdf[judged] >= 0) & (cdf[judged] <= 1)):
+                v = cdf[judged][~((cdf[judged] >= 0) & (cdf[judged] <= 1))]
+                bad(f"cdf values outside [0,1]: {v[:3].tolist()} (fitted parameters {prm})", "cdf_range", fitted=prm)
+            if kind == "ignore_zeros" and np.any(cdf[dry] != -np.inf):
+                bad("cdf(0) is not -inf", "cdf_zero", fitted=prm)
+            if kind.startswith("hurdle") and np.any(cdf[wetm] < nz / n - 1e-15):
+                bad(f"a wet value receives the cdf value {float(cdf[wetm].min())!r}, below the observed dry fraction {nz / n!r}", "wet_above_p0", fitted=[float(fit[0])] + prm)
+            if kind != "censored_nocensor" and np.any(back[dry] != 0):
+                bad(f"ppf(cdf(0)) = {back[dry][back[dry] != 0][:3].tolist()} - a dry value does not stay dry (fitted parameters {prm})", "dry", fitted=prm)
+            if kind == "censored" and np.any(back[data < thr * (1 - 1e-9)] != 0):
+                bad(f"a value below the threshold {thr} does not come back as 0 (fitted parameters {prm})", "dry", fitted=prm)
+            if kind == "censored_nocensor" and not np.all((back[dry] >= 0) & (back[dry] < thr * (1 + 1e-9))):
+                bad(f"censor_in_ppf=False: a dry value comes back as {back[dry][~((back[dry] >= 0) & (back[dry] < thr * (1 + 1e-9)))][:3].tolist()}, not inside [0, threshold) "
+                    f"(fitted parameters {prm})", "dry_uncensored", fitted=prm)
+            w = rt_bad(data[wetm], back[wetm], g.cdf(data[wetm], *gf))
+            if w is not None:
+                bad(f"ppf(cdf(x)) != x for a wet value: x = {w[0]!r} comes back as {w[1]!r} (fitted parameters {prm})", "wet_roundtrip", fitted=prm)
+            srt = np.sort(data[wetm])
+            if np.any(np.diff(np.asarray(quiet(model.cdf, srt, *fit), dtype=float)) < 0):
+                bad("cdf decreasing over the sorted wet values", "cdf_monotone", fitted=prm)
+            stats["small_fit_checks"] += 1
+            stats[f"small_fit_checks_{mode}"] += 1
+        except Exception as ex:  # noqa: BLE001
+            if not cens and _scipy_fit_raises_same(ex, rainy, model.fit_kwds):
+                stats["small_fit_scipy_mle_undefined_accepted"] += 1
+                continue
+            import traceback
+
+            where = [f for f in traceback.extract_tb(ex.__traceback__) if "ibicus" in f.filename]
+            bad(f"raises {type(ex).__name__}: {str(ex)[:150]} (in {where[-1].name if where else '?'})", "exception", exception=type(ex).__name__)
+
+
 # ------------------------------------------------------------------ the check
+def _run_corr_case(fn, rng, k, corr, res, problems):
+    """one correspondence case; an exception that escapes it (the real code raising on a valid zero-inflated sample, or
+    returning something that cannot even be passed on to its own cdf / ppf) is a violation carrying the case, and a broken tie"""
+    try:
+        fn(rng, k, corr, res)
+        return True
+    except Exception as ex:  # noqa: BLE001
+        import traceback
+
+        tb = traceback.extract_tb(ex.__traceback__)
+        import os
+
+        where = [f for f in tb if os.path.abspath(f.filename).startswith(os.path.abspath(C.REPO) + os.sep)]
+        at = f"{where[-1].filename.split('/')[-1]}:{where[-1].lineno} in {where[-1].name}" if where else f"{tb[-1].filename.split('/')[-1]}:{tb[-1].lineno} in {tb[-1].name}"
+        case = dict(_CASE)
+        desc = (f"the real code raises {type(ex).__name__}: {str(ex)[:160]} (innermost frame of the code under test: {at}) in correspondence case {k} ({fn.__name__}): "
+                f"{case.get('models', case.get('call', ''))}" + (f", {case.get('wet_values')} wet values of {len(case['data'])}" if "wet_values" in case else ""))
+        problems.append((desc, {**case, "generator": fn.__name__, "corr_case": k, "exception": f"{type(ex).__name__}: {str(ex)[:300]}"},
+                         {"law": "exception", "exception": type(ex).__name__, "in": fn.__name__}))
+        corr.mismatches.append({"op": f"case {k} {fn.__name__}", "impl": f"raises {type(ex).__name__}: {str(ex)[:200]}", "model": "no exception"})
+        return False
+
+
 def run(tier, res, force_search=False):
     rng = random.Random(C.seed() * 15485863 + 17)
     res.rule = ("correspondence cases = (zero-inflated dyadic sample of size 2..14 with a dry fraction in (0,1), in mm/day or flux units (x 2^-20, 2^-34), float64 or float32, "
@@ -761,6 +932,8 @@ def run(tier, res, force_search=False):
                 "(mm/day and kg m-2 s-1), dry fraction 0.05..0.95, n 20..120), each also as float32; plus long series (n 2000..10950) with a dry fraction < 0.1 % or > 99.9 %, and samples with wet amounts >= 1 "
                 "run with fit_kwds None / floc=0 / floc=c>0; plus cdf/ppf on sub-vectors (only wet, only zeros, single values, permutations, repeats, chunks) "
                 "of small samples and of samples with 20001 / 21900 / 25000 values, for all five model configurations; plus wet values in the far tails (tail probability 1e-9..3e-15) with a per-element conditioning tolerance; "
+                "plus short / mostly dry samples (n 10..400) with 1..9 (sometimes up to 30) wet values that are distinct, all tied or on a coarse reporting grid, with drizzle below the threshold, mm/day and flux units, "
+                "through the real fits of all five model configurations (the censored model's Nelder-Mead fit in every such case); an exception escaping a correspondence case is a violation carrying the case; "
                 "distinct = distinct (model, n, #dry, options) classes; every case is non-trivial (both dry and wet values)")
     res.trusted = C.BASE_TRUSTED + [
         "the amounts distribution is a parameter: theorems hold for every family satisfying Lemmas.Precip.AmountLaws (proved for the rational test double, assumed for scipy's gamma and other rv_continuous families)",
@@ -777,24 +950,25 @@ def run(tier, res, force_search=False):
                        "precipitation values are >= 0; the dry fraction lies strictly between 0 and 1; oracle samples have >= 5 wet values (scipy's gamma MLE raises on a single wet value)",
                        "float guard of the round-trip oracle: demanded where 1e-4 <= F(x) <= 1 - 1e-4 (outside, float cancellation in (q - p0)/(1 - p0) and the flat tails of ppf dominate)",
                        "the real Nelder-Mead fit of the censored model is exercised only on samples with >= 10 values above the threshold (with none the optimiser silently degenerates: shape ~ 1e-15, cdf == 1, ppf nan)",
-                       "censored model: at x == threshold exactly the float ppf(cdf(x)) may fall just below the threshold; either outcome is accepted and counted"]
+                       "censored model: at x == threshold exactly the float ppf(cdf(x)) may fall just below the threshold; either outcome is accepted and counted",
+                       "few / tied wet values (oracle_small_fits): the censored model's real fit is judged whenever at least one value lies above the threshold; where scipy's own gamma.fit raises on the rainy days "
+                       "(a single wet value, all wet values identical) the hurdle / ignore-zeros fit raising the very same exception is accepted and counted, a degenerate (non-finite) scipy MLE is skipped and counted"]
 
     lean_ok = C.lean_phase(res, PROP, GEN, TARGETS)
 
     n_corr = 40 if tier == "quick" else 400
     n_oracle = 40 if tier == "quick" else 600
     corr = Corr(res)
+    problems, stats = [], collections.Counter()
     for k in range(n_corr):
-        corr_hurdle_iz(rng, k, corr, res)
-        corr_censored(rng, k, corr, res)
-        corr_factory(rng, k, corr, res)
+        for fn in (corr_hurdle_iz, corr_censored, corr_factory):
+            _run_corr_case(fn, rng, k, corr, res, problems)
     corr.run()
     if corr.mismatches:
         res.tie_broken.append(f"correspondence DrvPrecip: {len(corr.mismatches)} mismatches, first: {corr.mismatches[0]}")
 
     if force_search or not lean_ok or corr.mismatches:
         n_oracle *= 3
-    problems, stats = [], collections.Counter()
     for k in range(n_oracle):
         seed_k = C.seed() * 100003 + k
         oracle(np.random.default_rng(seed_k), problems, stats, seed_k)
@@ -817,6 +991,16 @@ def run(tier, res, force_search=False):
                 problems.append((f"a precipitation model raises {type(ex).__name__}: {str(ex)[:150]} ({fn.__name__}, case seed {seed_k})",
                                  {"numpy_seed_of_case": seed_k, "generator": fn.__name__}, {"law": "exception", "exception": type(ex).__name__, "in": fn.__name__}))
             res.count((fn.__name__, k % 5), True)
+    # real fits on short / mostly dry samples with few, tied or coarsely reported wet values (own PRNG stream)
+    n_small = (40 if tier == "quick" else 400) * (3 if (force_search or not lean_ok or corr.mismatches) else 1)
+    for k in range(n_small):
+        seed_k = C.seed() * 100003 + 16000000 + k
+        try:
+            oracle_small_fits(np.random.default_rng(seed_k), problems, stats, seed_k)
+        except Exception as ex:  # noqa: BLE001
+            problems.append((f"a precipitation model raises {type(ex).__name__}: {str(ex)[:150]} (oracle_small_fits, case seed {seed_k})",
+                             {"numpy_seed_of_case": seed_k, "generator": "small_fits"}, {"law": "exception", "exception": type(ex).__name__, "in": "oracle_small_fits"}))
+        res.count(("oracle_small_fits", k % 9), True)
     res.extra["oracle_stats"] = dict(stats)
     res.extra["ties_accepted"] = int(stats.get("ties_accepted_at_threshold", 0))
 
@@ -840,13 +1024,27 @@ def replay(data):
         print("replay without failing input:", data.get("broken"))
         return 1
     problems, stats = [], collections.Counter()
+    if str(fi.get("generator", "")).startswith("corr_"):  # a correspondence case that raised: regenerate the case stream up to it
+        import os
+
+        os.environ["VERIF_SEED"] = str(data.get("seed", 0))
+        rng = random.Random(C.seed() * 15485863 + 17)
+        res = C.Result(PROP, data.get("tier", "quick"))
+        corr = Corr(res)
+        for k in range(int(fi["corr_case"]) + 1):
+            for fn in (corr_hurdle_iz, corr_censored, corr_factory):
+                _run_corr_case(fn, rng, k, corr, res, problems)
+        hits = [p for p in problems if p[1].get("corr_case") == fi["corr_case"] and p[1].get("generator") == fi["generator"] and p[1].get("data") == fi.get("data")]
+        for desc, _, sig in hits:
+            print("REPRODUCED:", desc[:300], sig)
+        return 1 if hits else 0
     k = int(fi["numpy_seed_of_case"])
     import functools
 
     gen = {"tails": oracle_tails, "oracle_tails": oracle_tails, "vectors": oracle_vectors, "oracle_vectors": oracle_vectors, "vectors_large": functools.partial(oracle_vectors, large=True),
            "oracle_vectors_large": functools.partial(oracle_vectors, large=True),
            "extreme_fraction": oracle_extreme_fraction, "oracle_extreme_fraction": oracle_extreme_fraction,
-           "fit_kwds": oracle_fit_kwds, "oracle_fit_kwds": oracle_fit_kwds}.get(fi.get("generator"), oracle)
+           "fit_kwds": oracle_fit_kwds, "oracle_fit_kwds": oracle_fit_kwds, "small_fits": oracle_small_fits}.get(fi.get("generator"), oracle)
     gen(np.random.default_rng(k), problems, stats, k)
     want = data.get("signature", {})
     hits = [p for p in problems if all(p[2].get(a) == b for a, b in want.items())]
